@@ -120,6 +120,31 @@ func (p *Prog) computeOpaque() []opaqueRange {
 							}
 						}
 					}
+					// a directive test written as a search of a table with a predicate closure:
+					// slices.ContainsFunc(elseDirectives, func(d string) bool { return helpers.HasAttr(node, d) })
+					if call, ok := n.(*ast.CallExpr); ok && why == "" {
+						if sel, ok := call.Fun.(*ast.SelectorExpr); ok && len(call.Args) == 2 {
+							if pk, ok := sel.X.(*ast.Ident); ok && pk.Name == "slices" && (sel.Sel.Name == "ContainsFunc" || sel.Sel.Name == "IndexFunc") {
+								if lit, ok := call.Args[1].(*ast.FuncLit); ok && lit.Type.Params != nil && len(lit.Type.Params.List) == 1 && len(lit.Type.Params.List[0].Names) == 1 {
+									prm := info.Defs[lit.Type.Params.List[0].Names[0]]
+									ast.Inspect(lit.Body, func(m ast.Node) bool {
+										inner, ok := m.(*ast.CallExpr)
+										if !ok {
+											return true
+										}
+										isel, ok := inner.Fun.(*ast.SelectorExpr)
+										if !ok || (isel.Sel.Name != "HasAttr" && isel.Sel.Name != "GetAttr") || len(inner.Args) != 2 {
+											return true
+										}
+										if id, ok := inner.Args[1].(*ast.Ident); ok && prm != nil && info.Uses[id] == prm {
+											why = "it tests an element's directives by searching a table of names with a predicate closure"
+										}
+										return true
+									})
+								}
+							}
+						}
+					}
 					if why == "" {
 						if e, ok := n.(ast.Expr); ok {
 							if t := info.TypeOf(e); t != nil {
